@@ -67,6 +67,7 @@ static double max_wpb_benign = 0, max_call_ratio = 0;
 static double CMAX, CALLMAX; static size_t MAXBYTES; static char worst_call[300];
 
 static hx_buf Q, R, U;
+static int PRECUT;   /* combined cut position of the end of the prefix in the pumped stream (delivery mode 2: the prefix arrives in its own call) */
 static void build(const pstate *st, const punit *u, int k, int proper) {
     hb_reset(&Q); hb_reset(&R); hb_reset(&U);
     size_t ulen = u->text[0] ? strlen(u->text) : 1;
@@ -75,17 +76,22 @@ static void build(const pstate *st, const punit *u, int k, int proper) {
     else
     for (int i = 0; i < k; i++) { if (u->distinct == 1) hb_printf(&U, u->text, i); else hb_put(&U, u->text, ulen); }
     hb_puts(&Q, st->qpre); hb_puts(&R, st->spre);
+    size_t pre_q = Q.n, pre_r = R.n;
     if (st->qsuf == NULL) {
         /* the units form a chunked body: one chunk carrying all of them */
         hb_printf(&Q, "%zx\r\n", U.n); hb_put(&Q, U.p, U.n); hb_puts(&Q, "\r\n"); if (proper) hb_puts(&Q, "0\r\n\r\n");
         if (proper) hb_puts(&R, st->ssuf);
+        PRECUT = (pre_q > 0 && pre_q < Q.n) ? (int) pre_q : 0;
         return;
     }
     if (st->dir == 0) { hb_put(&Q, U.p, U.n); if (proper) { hb_puts(&Q, st->qsuf); hb_puts(&R, st->ssuf); } }
     else { hb_put(&R, U.p, U.n); if (proper) hb_puts(&R, st->ssuf); }
+    /* cut positions: 1..nq-1 in the request stream, nq+1..nq+ns-1 in the response stream */
+    if (st->dir == 0) PRECUT = (pre_q > 0 && pre_q < Q.n) ? (int) pre_q : 0; else PRECUT = (pre_r > 0 && pre_r < R.n) ? (int) (Q.n + pre_r) : 0;
 }
 static uint64_t run_shape(int onebyte) {
     hx_script_init(&S); S.light = 1; S.cfg.log_level = HTP_LOG_NONE;
+    if (onebyte == 2) cx_build(&S, Q.p, Q.n, R.p, R.n, &PRECUT, PRECUT > 0 ? 1 : 0, 1); else
     if (onebyte) cx_build_uniform(&S, Q.p, Q.n, R.p, R.n, 1, 1); else cx_build(&S, Q.p, Q.n, R.p, R.n, NULL, 0, 1);
     if (hx_run(&S, &O)) return 0;
     n_exec++; n_calls += O.ncalls;
@@ -98,14 +104,14 @@ static void shape(int si, int ui, int proper, int onebyte, int topexp) {
     for (int e = 6; e <= topexp; e++) {
         int k = 1 << e;
         if ((size_t) k * (ulen + (u->distinct == 1 ? 4 : 0)) > MAXBYTES) break;
-        if (onebyte && (size_t) k * (ulen + (u->distinct == 1 ? 4 : 0)) + 200 > HX_MAXOPS - 16) break;
+        if (onebyte == 1 && (size_t) k * (ulen + (u->distinct == 1 ? 4 : 0)) + 200 > HX_MAXOPS - 16) break;
         build(st, u, k, proper);
         w[nr] = run_shape(onebyte); bytes[nr] = Q.n + R.n;
         if (O.work_call_max > max_call_ratio) { max_call_ratio = O.work_call_max; snprintf(worst_call, sizeof worst_call, "%s | %s | k=%d proper=%d onebyte=%d: call len=%u buffered=%u work=%llu", st->name, u->name, k, proper, onebyte, O.work_call_max_len, O.work_call_max_buffered, (unsigned long long) O.work_call_max_work); }
         if (CALLMAX > 0 && O.work_call_max > CALLMAX) {
             char sig[200], msg[500]; snprintf(sig, sizeof sig, "percall:%s|%s", st->name, u->name);
             snprintf(msg, sizeof msg, "state \"%s\" pumped with unit \"%s\" x%d (%s, %s): one call of %u bytes with %u bytes buffered cost %llu work units (%.0f per byte, bound %.0f)", st->name, u->name, k, proper ? "proper end" : "abrupt close",
-                     onebyte ? "1-byte calls" : "one call", O.work_call_max_len, O.work_call_max_buffered, (unsigned long long) O.work_call_max_work, O.work_call_max, CALLMAX);
+                     onebyte == 1 ? "1-byte calls" : onebyte == 2 ? "prefix in its own call" : "one call", O.work_call_max_len, O.work_call_max_buffered, (unsigned long long) O.work_call_max_work, O.work_call_max, CALLMAX);
             char rep[400]; snprintf(rep, sizeof rep, "# engine=pump\nstate %d\nunit %d\nk %d\nproper %d\nonebyte %d\n", si, ui, k, proper, onebyte);
             hx_emit_violation("C08", "per_call_cost", sig, msg, rep);
         }
@@ -123,13 +129,13 @@ static void shape(int si, int ui, int proper, int onebyte, int topexp) {
     double n1 = r1 / b1 * 2.0, n2 = r2 / ((double) bytes[nr - 2] / (double) bytes[nr - 3]) * 2.0;
     /* 1-byte delivery cannot reach past the line-buffer cap inside the op budget, so its growth is judged by the per-call
      * clause (each call costs at most A.(len + buffered) + B) and the work-per-byte ceiling only */
-    int superlinear = (!onebyte && n1 > 2.3 && n2 > 2.3 && wpb > 40) || (CMAX > 0 && wpb > CMAX);
+    int superlinear = (onebyte != 1 && n1 > 2.3 && n2 > 2.3 && wpb > 40) || (CMAX > 0 && wpb > CMAX);
     cx_set_add(&outs, (uint64_t) (wpb * 4) * 131 + (uint64_t) si);
     if (!superlinear && wpb > max_wpb_benign) max_wpb_benign = wpb;
     if (superlinear) {
         char sig[200], msg[600]; snprintf(sig, sizeof sig, "superlinear:%s|%s", st->name, u->name);
         snprintf(msg, sizeof msg, "state \"%s\" pumped with unit \"%s\" (%s, %s): work %llu -> %llu -> %llu for %zu -> %zu -> %zu bytes (doubling ratios %.2f, %.2f; %.0f work units per byte at the top)", st->name, u->name,
-                 proper ? "proper end" : "abrupt close", onebyte ? "1-byte calls" : "one call", (unsigned long long) w[nr - 3], (unsigned long long) w[nr - 2], (unsigned long long) w[nr - 1], bytes[nr - 3], bytes[nr - 2], bytes[nr - 1], n2, n1, wpb);
+                 proper ? "proper end" : "abrupt close", onebyte == 1 ? "1-byte calls" : onebyte == 2 ? "prefix in its own call" : "one call", (unsigned long long) w[nr - 3], (unsigned long long) w[nr - 2], (unsigned long long) w[nr - 1], bytes[nr - 3], bytes[nr - 2], bytes[nr - 1], n2, n1, wpb);
         char rep[400]; snprintf(rep, sizeof rep, "# engine=pump\nstate %d\nunit %d\nk %d\nproper %d\nonebyte %d\n", si, ui, 1 << (6 + nr - 1), proper, onebyte);
         hx_emit_violation("C08", "superlinear", sig, msg, rep);
     }
@@ -150,11 +156,12 @@ static int worker(int argc, char **argv) {
     }
     if (hx_work == 0) { /* the meter must be alive in this flavour */ build(&ST[0], &UN[5], 64, 1); if (run_shape(0) == 0) { fprintf(stderr, "pump: the work meter reads 0 - this binary was not built in the cost flavour\n"); return 2; } }
     long id = 0;
-    for (int si = 0; si < NST; si++) for (int ui = 0; ui < NUN; ui++) for (int proper = 1; proper >= 0; proper--) for (int one = 0; one < 2; one++) {
+    for (int si = 0; si < NST; si++) for (int ui = 0; ui < NUN; ui++) for (int proper = 1; proper >= 0; proper--) for (int one = 0; one < 3; one++) {
+        if (one == 2 && !proper) continue;                   /* the split delivery is run with the proper suffix only */
         if (id++ % hx_shard_n != hx_shard_i) continue;
         if (hx_deadline_hit()) goto out;
-        shape(si, ui, proper, one, one ? top1 : top);
-        if (id % 300 == 1) { char t[200]; snprintf(t, sizeof t, "state \"%s\" . unit \"%s\"^k . %s, %s, k = 64 .. 2^%d", ST[si].name, UN[ui].name, proper ? "proper suffix" : "abrupt close", one ? "1-byte calls" : "one call", one ? top1 : top); hx_emit_sample(t); }
+        shape(si, ui, proper, one, one == 1 ? top1 : top);
+        if (id % 300 == 1) { char t[200]; snprintf(t, sizeof t, "state \"%s\" . unit \"%s\"^k . %s, %s, k = 64 .. 2^%d", ST[si].name, UN[ui].name, proper ? "proper suffix" : "abrupt close", one == 1 ? "1-byte calls" : one == 2 ? "prefix in its own call, the rest in one call" : "one call", one == 1 ? top1 : top); hx_emit_sample(t); }
     }
 out:
     hx_emit_stat("executions", n_exec); hx_emit_stat("shapes", n_shapes); hx_emit_stat("calls", n_calls); hx_emit_stat("distinct_outcomes", (long long) outs.cnt);
